@@ -608,6 +608,7 @@ func clipS(s string, n int) string {
 }
 
 func checkKeymasterSigned(c *km.Ctx, s *km.Sem, rule string) {
+	c06ctx = c
 	fn := c.MustFunc(rule, "cmd/keymasterd", "(*RuntimeState).getUsernameIfKeymasterSigned")
 	if fn == nil {
 		return
@@ -674,7 +675,7 @@ func checkKeymasterSigned(c *km.Ctx, s *km.Sem, rule string) {
 		if f.Op == token.ILLEGAL && !f.Pol {
 			if cl, ok := f.X.(*ssa.Call); ok && km.CalleeFull(cl.Common()) == "bytes.Equal" {
 				a, b := cl.Common().Args[0], cl.Common().Args[1]
-				return (mentionsField(a, "selfRoleCaCertDer") && mentionsField(b, "Raw")) || (mentionsField(b, "selfRoleCaCertDer") && mentionsField(a, "Raw"))
+				return (mentionsField(a, "selfRoleCaCertDer") && isIssuerRaw(b)) || (mentionsField(b, "selfRoleCaCertDer") && isIssuerRaw(a))
 			}
 		}
 		// no role CA configured at all
@@ -798,3 +799,60 @@ func globalIntTableValues(c *km.Ctx, lk *ssa.Lookup) ([]int64, bool) {
 	}
 	return vals, good && len(vals) > 0
 }
+
+// isIssuerRaw: v is the Raw bytes of the certificate that signed the leaf - chain[1] of a verified chain (directly,
+// through a local variable, or the certificate parameter of a helper whose callers pass chain[1]) - never the leaf's
+// own certificate chain[0]: the role-requesting CA is recognised by the issuer.
+func isIssuerRaw(v ssa.Value) bool {
+	base, fld, ok := km.FieldOfLoad(km.Unwrap(v))
+	if !ok || fld != "Raw" {
+		return false
+	}
+	return isChainElem(base, 1, 0)
+}
+
+func isChainElem(v ssa.Value, want int64, depth int) bool {
+	v = km.CellOrigin(km.Unwrap(v))
+	if depth > 3 {
+		return false
+	}
+	switch x := v.(type) {
+	case *ssa.UnOp:
+		if ia, ok := x.X.(*ssa.IndexAddr); ok {
+			i, isC := km.ConstInt(ia.Index)
+			return isC && i == want
+		}
+		return isChainElem(x.X, want, depth+1)
+	case *ssa.Parameter:
+		// a helper handed the certificate: judged by what its callers pass
+		fn := x.Parent()
+		idx := -1
+		for i, p := range fn.Params {
+			if p == x {
+				idx = i
+			}
+		}
+		if idx < 0 || c06ctx == nil {
+			return false
+		}
+		sites := c06ctx.G.Callers[fn]
+		if len(sites) == 0 {
+			return false
+		}
+		for _, cs := range sites {
+			ci, ok := cs.Instr.(ssa.CallInstruction)
+			if !ok {
+				return false
+			}
+			a := km.CallArgs(ci.Common())
+			if idx >= len(a) || !isChainElem(a[idx], want, depth+1) {
+				return false
+			}
+		}
+		return true
+	}
+	return false
+}
+
+// c06ctx: the context of the running check (isChainElem follows a helper's parameter to its callers).
+var c06ctx *km.Ctx
